@@ -610,7 +610,8 @@ negative_binomial = tfp_distribution(
 """Negative binomial distribution for overdispersed count data.
 
 Args:
-    total_count: Number of successes (> 0).
+    total_count: Number of failures at which the trials stop (> 0); the value
+        is the number of successes observed before that.
     logits: Log-odds of success, or
     probs: Probability of success per trial.
 """
